@@ -43,10 +43,12 @@ def unwrap(x):
     return x
 
 
-def op_args(op, fn_resolver=None):
-    """fresh argument objects for every use; '@fn:name' stands for a student function handed back as a callback"""
+def op_args(op, fn_resolver=None, ret_resolver=None):
+    """fresh argument objects for every use; '@fn:name' stands for a student function handed back as a callback,
+    '@ret:i' for what the call of op i returned (instructors pass results of earlier calls on as arguments)"""
     if 'args_src' in op:
-        return [fn_resolver(src[4:]) if src.startswith('@fn:') else eval(src, {'__builtins__': __builtins__})
+        return [fn_resolver(src[4:]) if src.startswith('@fn:') else
+                ret_resolver(int(src[5:])) if src.startswith('@ret:') else eval(src, {'__builtins__': __builtins__})
                 for src in op['args_src']]
     return copy.deepcopy(list(op.get('args', ())))
 
@@ -161,6 +163,7 @@ class SbxRun:
         MONITOR.begin(digest=self.cfg.get('digest', True), sites=self.cfg.get('sites', False))
         self.ref = RefExecutor(self.files, self.main) if self.cfg.get('ref') else None
         self.sched = None
+        self.raw_rets, self.ref_rets, self.ok_rets = {}, {}, {}
         if self.cfg.get('sandbox_threaded'):
             # the instructor switched the sandbox itself to threaded mode: every execution AND every nested import
             # of a student file gets its own thread (all of them finish far inside the limit here)
@@ -215,6 +218,19 @@ class SbxRun:
             # function does not exist -- e.g. an earlier run crashed before defining it
             use_ref = False
             o['skipped'] = 'no-such-function'
+        wanted = [int(a[5:]) for a in op.get('args_src', ()) if isinstance(a, str) and a.startswith('@ret:')]
+        if wanted and any(self.ok_rets.get(i) is not True for i in wanted):
+            # the earlier call whose result is passed on did not produce one (it failed on one side or the other)
+            use_ref = False
+            o['skipped'] = 'no-such-result'
+            o['not_executed'] = True
+            o['escaped'] = None
+            o['new_contexts'] = []
+            o['new_feedback'] = []
+            o.update(self.io_state())
+            if self.ref is not None:
+                o['ref_queue'] = list(self.ref.queue)
+            return o
         if use_ref and kind in ('evaluate', 'run') and (op.get('expr') or op.get('code')):
             # instructor code that uses student functions: only meaningful when they exist on both sides
             try:
@@ -247,7 +263,7 @@ class SbxRun:
             elif kind == 'run':
                 refres = self.ref.run(op.get('code'), op.get('filename'), fault=rfault)
             elif kind == 'call':
-                rargs = op_args(op, lambda n: self.ref.ns[n])
+                rargs = op_args(op, lambda n: self.ref.ns[n], self.ref_rets.get)
                 rkw = copy.deepcopy(dict(op.get('kwargs', {})))
                 rkw.update(copy.deepcopy(op.get('function_kwargs') or {}))
                 kwl = op.get('kwargs_locals') or {}
@@ -258,6 +274,9 @@ class SbxRun:
             else:
                 refres = self.ref.evaluate(op['expr'], fault=rfault)
             rv = refres.pop('value')
+            self.ref_rets[index] = rv
+            self.ok_rets[index] = (kind == 'call' and refres['outcome'] is None and escaped is None
+                                   and sb.exception is None and ret is not None)
             try:
                 refres['value_canon'] = canon(rv)
             except BaseException as e:
@@ -292,7 +311,7 @@ class SbxRun:
                     ret = C.run(code=op.get('code'), filename=op.get('filename'), inputs=inputs,
                                 threaded=op.get('threaded'), before=op.get('before'), after=op.get('after'))
                 elif kind == 'call':
-                    ret = C.call(op['fn'], *op_args(op, sb.get_function), inputs=inputs, threaded=op.get('threaded'),
+                    ret = C.call(op['fn'], *op_args(op, sb.get_function, self.raw_rets.get), inputs=inputs, threaded=op.get('threaded'),
                                  target=op.get('target', '_'), args_locals=op.get('args_locals'),
                                  function_kwargs=copy.deepcopy(op.get('function_kwargs')),
                                  kwargs_locals=dict((k, v) for k, v in (op.get('kwargs_locals') or {}).items()) or None,
@@ -307,6 +326,7 @@ class SbxRun:
                        'where': ['%s:%s:%d' % (fr.filename.rsplit('/', 1)[-1], fr.name, fr.lineno) for fr in tb[-4:]],
                        'pedal_frames': [fr.name for fr in tb if '/pedal/' in fr.filename]}
         o['escaped'] = escaped
+        self.raw_rets[index] = ret
         o['nS'], o['nI'], o['nP'] = MONITOR.nS, MONITOR.nI, MONITOR.nP
         o['fired'] = [dict(f) for f in MONITOR.fired[fired_before:]]
         o['fault_matches'] = MONITOR.last_count
